@@ -57,6 +57,7 @@ OUTPUT_ONLY = [
 # ------------------------------------------------------------------ Coq evaluation of a file with several Evals
 def coq_multi(tag, defs, evals, timeout=900):
     os.makedirs(CORR, exist_ok=True)
+    tag = f"{tag}_{os.getpid()}"
     path = os.path.join(CORR, f"c02_{tag}.v")
     with open(path, "w") as f:
         f.write(HEADER + defs + "\n" + "\n".join(f"Eval vm_compute in ({e})." for e in evals) + "\n")
@@ -261,7 +262,9 @@ def class_fields(cv):
         elif k == "wildcard":
             # a wildcard var may carry typed choices (mixed content classes): find_wildcard tries them first
             names = [(c["qname"], c) for c in v["choices"] if not c["wild"]]
-            wild.append(([n for n, _ in names], fns_of(v["namespaces"]), not v["list"], False, v["index"], names))
+            # ElementNode.child never marks a wildcard var as assigned, and bind_wild_var merges a second child of a
+            # non-list wildcard into one AnyElement wrapper: every wildcard var takes any number of children
+            wild.append(([n for n, _ in names], fns_of(v["namespaces"]), False, False, v["index"], names))
     return plain + compound + wild
 
 
@@ -278,13 +281,16 @@ def xclass_term(cv, cidx):
     avars = [v for v in cv["attributes"] if v["kind"] == "attribute"]
     anyattr = [v for v in cv["attributes"] if v["kind"] == "attributes"]
     # a tokens (xs:list) field holds a list of members: the enumeration constrains the items, not the attribute value
-    afields = clist([X.afield_term(dict(v, enum=None) if v["tokens"] else v) for v in avars], str, "afield")
+    # and a union field accepts more than its Enum member's values
+    afields = clist([X.afield_term(dict(v, enum=None) if (v["tokens"] or len(v["types"]) != 1) else v) for v in avars],
+                    str, "afield")
     atypes = clist([f"({cstr(v['qname'])}, {ftype_term(v)})" for v in avars], str, "(name * ftype)")
     aa = "None" if not anyattr else f"(Some {fns_term(fns_of(anyattr[0]['namespaces']))})"
     tx = "None" if not text else f"(Some {ftype_term(text[0])})"
     xsi = clist([f"({cstr(q)}, {cnat(cidx[c])})" for q, c in sorted(cv["xsi"].items()) if c in cidx], str, "(name * nat)")
+    bases = clist([cnat(cidx[b]) for b in cv["bases"] if b in cidx], str, "nat")
     return (f"(mk_xclass {meta} {clist(tterms, str, '(list (name * ftarget))')} {afields} {atypes} {aa} {tx} {xsi} "
-            f"{cbool(cv['nillable'])})")
+            f"{cbool(cv['nillable'])} {bases})")
 
 
 # ------------------------------------------------------------------ pairing proposal (checked in Coq: closure flag)
@@ -449,6 +455,10 @@ def classify_doc(run, doc, dr, feats, active):
         return ["root-xsi-type-yields-derived-element"]
     if err == "ConverterError" and "Unknown format 'None'" in msg and feats.get("pr_mixed_binary"):
         return ["mixed-content-binary-child-format-lost"]
+    if err == "ConverterError" and "No converter registered for `tuple`" in msg and (
+            run["oset"]["options"].get("frozen") or (run["oset"]["options"].get("format") or {}).get("frozen")):
+        return ["frozen-tuple-tokens-no-converter"]
+    active = sorted(set(active) | ({2} if feats.get("pr_empty_simple") else set()))   # an empty element where a default applies
     return [QUIRK_CLASS[q] for q in active]
 
 
@@ -457,7 +467,7 @@ def run(ck: Check):
     ck.level = "translation_validation"
     obligations, discharged, axioms = standard_proof_step(ck, extra_targets=["Model/XsdCorr.vo"])
     r = ck.rng
-    NPROG = int(os.environ.get("C02_NPROG") or ck.n(45, 1500))
+    NPROG = int(os.environ.get("C02_NPROG") or ck.n(40, 1500))
     NDOC = int(os.environ.get("C02_NDOC") or ck.n(20, 200))
 
     # ---------------- programs
@@ -579,7 +589,7 @@ def run(ck: Check):
     shards = [good_prog[i:i + SH] for i in range(0, len(good_prog), SH)]
     shard_times = []
     DOC_PREDS = ["doc_in_valid", "doc_out_valid_agrees", "doc_abstract_sound", "doc_infoset_ok", "doc_infoset_unordered_ok",
-                 "doc_revalid_ok"]
+                 "doc_revalid_ok", "doc_infoset_ok_noall", "doc_infoset_ok_nodup"]
     FEATS = ["pr_empty_simple", "pr_nil", "pr_xsi_type", "pr_mixed_ws", "pr_mixed_binary"]
 
     def eval_shard(si):
@@ -615,7 +625,7 @@ def run(ck: Check):
         quirks = results[si][6 + len(DOC_PREDS)]
         active = results[si][7 + len(DOC_PREDS)]
         feats = [set(x) for x in results[si][8 + len(DOC_PREDS):]]
-        bad_valid, bad_outvalid, bad_abs, bad_info, bad_unord, bad_reval = bad
+        bad_valid, bad_outvalid, bad_abs, bad_info, bad_unord, bad_reval, bad_noall, bad_nodup = bad
         base_runs = [p["runs"][o] for p in sh for o in (0, 1)]
         docmap = [(rr, j) for rr in base_runs for j in range(len(rr["res"]["docs"]))]
         for ri, rr in enumerate(base_runs):
@@ -655,7 +665,7 @@ def run(ck: Check):
             if di in bad_outvalid:
                 ck.failure("corr-schema-validity-output", "Spec/XsdCm.v's typed validity and lxml disagree on a produced document",
                            replay_of(rr, doc=doc, out=dr.get("ok"), lxml_valid=dr.get("valid")))
-            dr["active"], dr["feats"] = active[di], ft
+            dr["active"], dr["feats"], dr["quirks"] = active[di], ft, (quirks[di] if di in bad_unord else [])
             if "err" in dr:
                 stats["docs_failed"] += 1
                 clss = classify_doc(rr, doc, dr, ft, active[di])
@@ -687,7 +697,9 @@ def run(ck: Check):
                            "output does not have the same elements, attributes and typed values as the input (defaults applied): "
                            + where, replay_of(rr, doc=doc, out=dr["ok"], features=ft, abstract_rejects=brej[di], where=where))
             elif di in bad_info:
-                ck.failure("order-not-preserved", "element order changed although the side condition for order holds",
+                ck.failure("all-group-order-not-preserved" if di not in bad_noall else
+                           "repeated-element-name-order-not-preserved" if di not in bad_nodup else "order-not-preserved",
+                           "element order changed although the side condition for order holds",
                            replay_of(rr, doc=doc, out=dr["ok"]))
             if di in bad_reval and di not in bad_unord:
                 ck.failure("output-not-schema-valid", "serialized output is not schema-valid although order is claimed for all its elements",
@@ -709,11 +721,16 @@ def run(ck: Check):
         terms = []
         for rr, base, j, a, b in matrix_cases:
             terms.append(f"({xdoc_term(parse_doc(clean_out(a)))}, {xdoc_term(parse_doc(clean_out(b)))})")
-        badm = common.coq_bad_indices("c02_matrix", HEADER, "", "xdoc * xdoc", "outputs_equal", terms, shard=100)
+        badm = common.coq_bad_indices("c02_matrix", HEADER.split("Fixpoint bad_idx")[0], "", "xdoc * xdoc", "outputs_equal",
+                                      terms, shard=100)
         for i in badm:
             rr, base, j, a, b = matrix_cases[i]
-            ck.failure("options-change-output", f"the output of a document differs under {rr['oset']['options']}",
-                       replay_of(rr, doc=rr["p"]["docs"][j], base=a, variant=b))
+            # when the base output already deviates from the input by known deviations, the option dependence of WHICH
+            # deviation shows is part of those findings (e.g. which of two confusable compound choices is written)
+            qs = base["res"]["docs"][j].get("quirks") or []
+            for cls in [QUIRK_CLASS[q] for q in qs if q in QUIRK_CLASS] or ["options-change-output"]:
+                ck.failure(cls, f"the output of a document differs under {rr['oset']['options']}",
+                           replay_of(rr, doc=rr["p"]["docs"][j], base=a, variant=b))
 
     # ---------------- witnesses of failed validator runs, replayed through the real parser
     if witness_jobs:
@@ -787,10 +804,38 @@ def explained_by_validator(rr, brejecting):
 
 
 def classify_codegen(run):
+    e = run["res"].get("error") or {}
+    if e.get("type") == "ValueError" and "mutable default <class 'xsdata.models.datatype.XmlPeriod'>" in (e.get("message") or ""):
+        return "period-default-unhashable-import-fails"
+    if e.get("type") == "NoRootClass" and run["oset"]["options"].get("structure_style") == "namespaces" \
+            and not run["p"]["root"].startswith("{") and any(f["tns"] for f in run["p"]["m"]["files"]):
+        return "namespaces-style-module-shadowed-by-package"
+    if e.get("type") == "CodegenError" and "Circular Dependencies Found" in (e.get("message") or "") \
+            and len(run["p"]["sources"]) > 1 and run["oset"]["options"].get("structure_style", "filenames") == "filenames":
+        return "cross-file-import-cycle-filenames-style"
+    if e.get("type") == "ConverterError" and run["res"].get("stage") == "write" and "converter.py" in (e.get("where") or "") \
+            and re.search(r'(default|fixed)="', "".join(run["p"]["sources"].values())):
+        return "field-default-value-converter-error"
     return None
 
 
+def has_other_wildcard(c):
+    if c[0] == "any":
+        return c[1][0] == "other"
+    if c[0] == "occ":
+        return has_other_wildcard(c[3])
+    if c[0] == "el":
+        return False
+    return any(has_other_wildcard(x) for x in c[1])
+
+
 def classify_pair(rr, tc, info):
+    """Narrow class of a (type, class) pair the validator rejects and the real parser confirms."""
+    t = rr["p"]["schema"]["types"][tc[0]]
+    word = info.get("word") or []
+    if info.get("failed") == ["content"] and any(q.startswith("\x00") for q in word) \
+            and t["content"][0] in ("elems", "mixed") and has_other_wildcard(t["content"][1]):
+        return "wildcard-other-resolved-against-parent-namespace"
     return None
 
 
